@@ -16,6 +16,11 @@ SEEDS = [
     'rule cls { strings: $a = /x[\\x80-\\xff]+[^\\x00-\\x1f][a-\\xff]y/ $b = /[\\x00-\\xff]{2}z[\\xfe-\\xff]/ nocase wide condition: $a or $b or ext_s matches /^[\\x7f-\\xff]*$/ }',
     'rule esc { strings: $a = /ab\\gcd[a-z]{2}\\q(e|f)/ $b = /\\gabc[a-z]d{1,3}/ condition: $a or $b or ext_s matches /x\\gy+(z)/ }',
     'rule arith { condition: (1 + 2 * 3 \\ 4 % 5 - -6) >> 1 << 2 | 3 & 4 ^ ~5 == 0 or not defined uint8(filesize) or 10 of them }',
+    # every kind of token that carries an allocated value (identifiers, string identifiers with and without wildcard, the count / offset /
+    # length forms with and without index, text, regexp and hex literals): each must be released when the parser discards it on an error
+    'rule toks : tg { meta: m = "v" strings: $a = "abc" $b1 = "x" $b2 = { 01 ?? 03 } $c = /r[e]x/ condition: !a > 2 and !a[1] == 3 and #a in (0..10) == 1 and '
+    '@a[#a] >= 0 and @a < 5 and #b1 == 0 and for all of ($b*) : ( # >= 0 and @ >= 0 and ! >= 1 ) and "lit" contains "l" and ext_s == "str" and '
+    'ext_s matches /r.e/is and any of ($a, $b*) and uint8(!a[1]) == 0 and toks_other }',
 ]
 
 
